@@ -41,7 +41,7 @@ ABS_INVS = ["AtMostOneCreator", "OpenSeesCreatorSettings", "NoHalfInitialised", 
             "RecreatableAfterLast"]
 IMPL_INVS = ["Explainable"] + ABS_INVS + ["ImplAtMostOneCreator", "ImplNoHalfInitialised",
                                           "ImplOpenSeesCreatorSettings", "ImplLifetimeFollowsUsers",
-                                          "ImplQuiescentExact"]
+                                          "ImplQuiescentExact", "ImplTagsFollowHandles"]
 
 
 # ---------------------------------------------------------------------------------------------
@@ -120,7 +120,8 @@ def guarded(fn, what):
     return wrapper
 
 
-def lifecycle_instance(ctx, name, threads, maxops, budget, hasres, ooc, wbu=True, lol=True, rii=True, live=False):
+def lifecycle_instance(ctx, name, threads, maxops, budget, hasres, ooc, wbu=True, lol=True, rii=True, live=False,
+                       rsl=True, tod=True, bdw=True, faults=0, crashes=0):
     d = ctx.path("lc", name, "x")[:-2]
     with open(os.path.join(d, f"{name}.tla"), "w") as f:
         f.write(f"---- MODULE {name} ----\nEXTENDS ServiceLifecycle\n====\n")
@@ -129,7 +130,9 @@ def lifecycle_instance(ctx, name, threads, maxops, budget, hasres, ooc, wbu=True
         f.write("SPECIFICATION LSpec\nCONSTANTS\n"
                 f" NThreads = {threads}\n MaxOps = {maxops}\n Budget = {budget}\n MaxInc = {threads * maxops}\n"
                 f" HasResources = {b(hasres)}\n UseOoc = {b(ooc)}\n WriteBeforeUnlock = {b(wbu)}\n"
-                f" LockOnLast = {b(lol)}\n RegisterInInit = {b(rii)}\n Env <- LEnv\n"
+                f" LockOnLast = {b(lol)}\n RegisterInInit = {b(rii)}\n ReleaseStaticLate = {b(rsl)}\n"
+                f" TagOwnedUntilDone = {b(tod)}\n BoundedDynWait = {b(bdw)}\n MaxFaults = {faults}\n MaxCrashes = {crashes}\n"
+                " Env <- LEnv\n"
                 f"INVARIANTS {' '.join(IMPL_INVS)}\n" + ("PROPERTY Termination\n" if live else ""))
     return d
 
@@ -382,11 +385,16 @@ def part_matrix(ctx, dflts):
                 why = f"open returned {r['r']}, specified: {' or '.join(p['exp'])}"
             elif r["r"] == "Ok" and r["same"] != 1:
                 why = f"successful open shows settings {r.get('s')} different from the creator's {r['s0']}"
+            elif r["tag"] != (1 if r["r"] == "Ok" else 0):
+                why = (f"service not left untouched by the attempt: the opener's node carries {'a' if r['tag'] else 'no'} service tag "
+                       f"after open returned {r['r']}")
             elif r["again"] != "Ok" or r["untouched"] != 1:
                 why = (f"service not left untouched by the attempt: a following compatible open returned {r['again']}"
                        f" (identical settings: {r['untouched']})")
             elif r["clean"] != 1:
                 why = "service still exists after the last handle was dropped"
+            elif r["tags_end"] != 0:
+                why = f"{r['tags_end']} node(s) still carry a service tag after the last handle was dropped"
             outcomes[r["r"]] = outcomes.get(r["r"], 0) + 1
             if why:
                 viol.append((p, r, why))
@@ -398,7 +406,7 @@ def part_matrix(ctx, dflts):
             out.append(("violation", vp.Violation(
                 f"{pat}: compatibility matrix: {why} (creator {p.get('c')}, opener {p.get('o')})",
                 replay={"kind": "matrix", "pat": pat, "pair": p, "result": r, "why": why, "dflt": dflts[pat]},
-                signature=f"matrix:{pat}:{exp}->{r.get('r')}")))
+                signature=f"matrix:{pat}:{exp}->{r.get('r')}" + (":tag" if "service tag" in why else ""))))
         if len(viol) > 3:
             out.append(("note", f"{pat}: {len(viol)} matrix pairs deviate in total"))
         if pat == "ps":
@@ -607,6 +615,508 @@ def part_traces(ctx):
     return out
 
 
+# ---------------------------------------------------------------------------------------------
+# failing environment (fault injection) and crashed creators: real processes under the LD_PRELOAD shim
+
+import subprocess
+import threading
+import time
+
+_shim_lock = threading.Lock()
+_shim_path = None
+
+
+def shim_so(ctx):
+    """The shim compiled from the CURRENT source into the work directory (never races with another check
+    that is using harness/sysshim/sysshim.so)."""
+    global _shim_path
+    with _shim_lock:
+        if _shim_path is None:
+            src = os.path.join(vp.HARNESS, "sysshim", "sysshim.c")
+            out = ctx.path("shim", "sysshim.so")
+            r = subprocess.run(["gcc", "-O2", "-g", "-fPIC", "-D_GNU_SOURCE", "-shared", "-o", out, src, "-ldl",
+                                "-lpthread"], stdout=subprocess.PIPE, stderr=subprocess.STDOUT, text=True, timeout=600)
+            if r.returncode != 0:
+                raise vp.ToolError("cannot build the sysshim:\n" + r.stdout[-2000:])
+            _shim_path = out
+    return _shim_path
+
+
+def shim_env(ctx, roots, seed, **kw):
+    e = dict(os.environ)
+    for k in list(e):
+        if k.startswith("IOX2_VERIF_"):
+            del e[k]
+    e.update({"LD_PRELOAD": shim_so(ctx), "IOX2_VERIF_ROOT": ":".join(roots), "IOX2_LOG_LEVEL": "fatal",
+              "VERIF_SEED": str(seed), "RUST_BACKTRACE": "0"})
+    e.update({k: str(v) for k, v in kw.items()})
+    return e
+
+
+def obj_kind(name):
+    """the kind of object a faulted libc call was about, from its file name"""
+    if "." in name:
+        k = name.rsplit(".", 1)[1]
+        # the node registry of the service, the management and the data segment of the blackboard are POSIX shared
+        # memory objects (bb-posix SharedMemoryBuilder); tags and the static config are files (bb-posix FileBuilder)
+        return {"dynamic": "shm", "blackboard_mgmt": "shm", "blackboard_data": "shm", "service": "static_config"}.get(k, k)
+    return "dir"
+
+
+def manifest_of(first, before=None):
+    """what the first unexplained record shows (for the signature of a fault / crash violation): for a quiescent
+    observation what it shows MORE than the observation `before` the faulty call"""
+    if not isinstance(first, dict):
+        return "?"
+    if first.get("k") in ("obs", "end"):
+        b = before or {}
+        parts = [n for n, k in (("exists", "exist"), ("listed", "listed"), ("files", "files"), ("shm", "shm"))
+                 if first.get(k, 0) > b.get(k, 0)]
+        if set(first.get("tg", [])) - set(b.get("tg", [])):
+            parts.append("tag")
+        if first.get("k") == "end" and first.get("dirs"):
+            parts.append("nodedir")
+        less = [n for n, k in (("exists", "exist"), ("files", "files"), ("shm", "shm")) if first.get(k, 0) < b.get(k, 0)]
+        if set(b.get("tg", [])) - set(first.get("tg", [])):
+            less.append("tag")
+        return ("left:" + "+".join(parts) if parts else "") + ("lost:" + "+".join(less) if less else "") or "obs"
+    return f"{first.get('a')}->{first.get('r')}"
+
+
+def obs_before_fault(run):
+    last = None
+    for e in run:
+        if e.get("k") == "obs":
+            last = e
+        if e.get("k") in ("fault", "crash"):
+            return last
+    return None
+
+
+class RunVerdict:
+    def __init__(self, pos, record, invariant, res):
+        self.pos, self.record, self.invariant, self.res = pos, record, invariant, res
+
+
+_re_run = re.compile(r'<<"RUN", (\d+), (\d+), (\d+)>>')
+
+
+def validate_runs(ctx, label, runs, describe):
+    """V1 for INDEPENDENT runs (one isolated domain each, sequential calls): ONE TLC invocation of ServiceAbsRuns.tla
+    judges every run separately (a `reset` record = an initial state); every unexplainable run is reported
+    (describe(run, rel, verdict) -> Violation) without hiding the others."""
+    out, accepted, hashes, ncalls = [], 0, set(), 0
+    rest = [r for r in runs if r]
+    for attempt in range(50):
+        if not rest:
+            break
+        f = ctx.path("traces", f"{label}.{attempt}.ndjson")
+        recs = [r for run in rest for r in run]
+        vp.write_ndjson(f, recs)
+        res = vp.tlc("service", "ServiceAbsRuns", workers=1, timeout=2400, env={"TRACE": f}, coverage=False, heap="3g")
+        out.append(("tlc", (f"ServiceAbsRuns[{label}: {len(rest)} runs]", res, False)))
+        if res.timed_out:
+            raise vp.ToolError(f"trace validation timed out: {label}")
+        starts, acc = {}, 1
+        for k, run in enumerate(rest):
+            starts[acc] = k
+            acc += len(run)
+        if res.violated and res.violated != "POSTCONDITION":
+            # an invariant of the property layer failed while explaining one run: report it, validate the others again
+            txt = " ".join(l for _, lines in res.cex[-1:] for l in lines)
+            m = re.search(r"run = (\d+)", txt)
+            k = starts.get(int(m.group(1))) if m else None
+            if k is None:
+                raise vp.ToolError(f"{label}: invariant {res.violated} violated, run not identified:\n{res.output[-3000:]}")
+            out.append(("violation", describe(rest[k], 0, RunVerdict(None, None, res.violated, res))))
+            rest = rest[:k] + rest[k + 1:]
+            continue
+        verdicts = {}
+        for line in res.prints:
+            m = _re_run.search(line)
+            if m:
+                verdicts[int(m.group(1))] = (int(m.group(2)), int(m.group(3)))
+        if res.error or len(verdicts) != len(rest) or set(verdicts) != set(starts):
+            raise vp.ToolError(f"trace validation gave no verdict ({label}): {res.error}\n{res.output[-4000:]}")
+        for first, (far, end) in sorted(verdicts.items()):
+            run = rest[starts[first]]
+            if far >= end:
+                accepted += 1
+                hashes.add(run_hash(run))
+                ncalls += sum(1 for e in run if e.get("k") == "call")
+            else:
+                out.append(("violation", describe(run, far - first, RunVerdict(far, recs[far - 1], None, res))))
+        rest = []
+    else:
+        raise vp.ToolError(f"{label}: too many invariant violations")
+    out.append(("accepted", (accepted, hashes, ncalls)))
+    return out
+
+
+def fault_history(run, limit=80):
+    out = []
+    for e in run:
+        k = e.get("k")
+        if k == "reset":
+            out.append(f"[{e.get('mode')} {e.get('pat')} {e.get('scenario', e.get('op', ''))} pos={e.get('pos', e.get('n'))} errno={e.get('errno', 0)}]")
+        elif k == "call":
+            out.append(f"n{e['nd']}:{e['a']}(c={e['c']})")
+        elif k == "ret":
+            out.append(f"-> {e['r']}" + (f" #id{e['id']}" if e.get("id") else "") + (f" ={e['v']}" if e["a"] == "exist" else "")
+                       + (" [a libc call of this call failed]" if e.get("f") else ""))
+        elif k == "fault":
+            out.append(f"FAULT: {e['call']}() on <{e['obj'][-40:]}> fails with errno {e['errno']}")
+        elif k == "crash":
+            out.append(f"CRASH: the process of node {e['nd']} is killed before its {e.get('n')}-th state-changing libc call"
+                       + (f" ({e.get('call')} <{e.get('obj', '')[-40:]}>)" if e.get("call") else ""))
+        elif k in ("obs", "end"):
+            out.append(f"{k}: exist={e['exist']} listed={e['listed']} files={e['files']} shm={e['shm']} tags@nodes={e['tg']}"
+                       + (f" node-dirs={e['dirs']}" if k == "end" else ""))
+        elif k == "note":
+            out.append(f"({e.get('what')} {e.get('nd')})")
+    return out[:limit]
+
+
+def describe_fault(run, rel, v):
+    h = run[0]
+    flt = next((e for e in run if e.get("k") == "fault"), {})
+    first = v.record if isinstance(v.record, dict) else {}
+    op = h.get("scenario", "?")
+    # the path taken: open_or_create of an absent service is a creation, of an existing one an open
+    opk = {"create@absent": "create", "ooc@absent": "create", "create@exists": "create-existing", "open@absent": "open-absent"}.get(op, "open")
+    where = f"{flt.get('call', 'no-fault')}@{obj_kind(flt.get('obj', ''))}" if flt else "no-fault"
+    before = obs_before_fault(run)
+    man = manifest_of(first, before) if v.invariant is None else f"inv:{v.invariant}"
+    fr = next((e for e in run if e.get("k") == "ret" and e.get("f")), {})
+    what = (f"{h.get('pat')}/fault: {op} - {flt.get('call')}() on the {obj_kind(flt.get('obj', ''))} object fails (errno "
+            f"{flt.get('errno')}), the call returns {fr.get('r')}; afterwards the recorded history is not explainable by an "
+            f"UNCHANGED service: event #{rel} ({man})"
+            if flt else f"{h.get('pat')}/fault: {op} (no fault injected): history not explainable at event #{rel} ({man})")
+    if v.invariant is not None:
+        what = f"{h.get('pat')}/fault: {op}: invariant {v.invariant} fails on the explained history"
+    return vp.Violation(what, replay={"kind": "trace", "mode": "fault", "pat": h.get("pat"), "first_unexplained": v.record,
+                                      "position_in_run": rel, "invariant": v.invariant, "history_before": fault_history(run),
+                                      "run": run, "reset": h},
+                        signature=f"fault:{opk}:{where}:{man}")
+
+
+def part_fault(ctx):
+    """Every state-changing libc call of create / open / open_or_create fails once (sysshim, re-armed in process):
+    quick = all positions for publish-subscribe + a seeded sample for the other patterns."""
+    root = ctx.path("dom", "x")[:-2]
+    if ctx.quick:
+        plan = {"ps": (0, "0"), "ev": (3, "0"), "rr": (3, "0"), "bb": (0, "0")}
+    else:
+        plan = {p: (0, "0,24,4") for p in PATS}         # default errno, EMFILE, EINTR
+
+    def one(pat):
+        sample, errnos = plan[pat]
+        parts, summaries, resume, skip = [], [], None, []
+        for attempt in range(60):
+            t = ctx.path("traces", f"fault-{pat}.{attempt}.ndjson")
+            args = ["fault", "--pat", pat, "--root", root, "--out", t, "--sample", sample, "--errnos", errnos,
+                    "--timeout", 150, "--tag", TAG]
+            if resume:
+                args += ["--resume", resume]
+            if skip:
+                args += ["--skip", ",".join(map(str, skip))]
+            exe = os.path.join(vp.TARGET_BIN, "drv-service")
+            try:
+                r = subprocess.run([exe] + [str(a) for a in args], stdout=subprocess.PIPE, stderr=subprocess.PIPE, text=True,
+                                   timeout=3000, env=shim_env(ctx, [root + "/", "/dev/shm/c6" + TAG], ctx.seed))
+            except subprocess.TimeoutExpired as ex:
+                raise vp.ToolError(f"fault enumeration for {pat} timed out") from ex
+            if r.returncode == 2:
+                raise vp.ToolError(f"fault driver reported a harness problem ({pat}):\n{r.stderr[-2000:]}")
+            recs = vp.read_ndjson(t) if os.path.exists(t) else []
+            parts.append(recs)
+            if r.returncode == 0:
+                summaries.append(vp.last_json_line(r.stdout))
+                break
+            # the process died inside the code under test (panic: exit 4 with a summary; abort / signal: nothing):
+            # the pending call gets the result the history shows - none - and the enumeration goes on behind it
+            last_reset = next((e for e in reversed(recs) if e.get("k") == "reset"), None)
+            if last_reset is None:
+                raise vp.ToolError(f"fault driver died before its first run ({pat}, exit {r.returncode}):\n{r.stderr[-2000:]}")
+            if r.returncode == 4:
+                summaries.append(vp.last_json_line(r.stdout))
+            if recs and recs[-1].get("k") in ("call", "fault"):
+                c = next(e for e in reversed(recs) if e.get("k") == "call")
+                recs.append({"k": "ret", "t": c["t"], "a": c["a"], "r": "Abort", "id": 0, "s": {}, "v": 0, "h": c["h"],
+                             "f": 1, "g": c.get("g", 0) + 1, "exit": r.returncode})
+            if last_reset["pos"] == 0:
+                skip.append(last_reset["si"])
+                resume = f"{last_reset['si'] + 1},0,-1"
+            else:
+                resume = f"{last_reset['si']},{last_reset['pos']},{last_reset['ei']}"
+        else:
+            raise vp.ToolError(f"fault enumeration for {pat} died too often")
+        return pat, [r for p_ in parts for r in p_], summaries
+
+    with cf.ThreadPoolExecutor(max_workers=2) as ex:
+        done = list(ex.map(one, PATS))
+    out, groups, summs = [], {}, []
+    for pat, recs, summaries in done:
+        tot = {"pat": pat, "calls": 0, "results": {}, "injected": 0, "runs": 0, "fault_results": {}, "positions": []}
+        for s_ in summaries:
+            tot["calls"] += s_["calls"]
+            tot["injected"] += s_["injected"]
+            tot["runs"] += s_["runs"]
+            tot["positions"] += s_.get("positions", [])
+            for key in ("results", "fault_results"):
+                for k, v in s_[key].items():
+                    tot[key][k] = tot[key].get(k, 0) + v
+        fr = tot["fault_results"]
+        # vacuity: faults were really injected, into creations and into opens, and some calls failed because of them
+        if tot["injected"] < 8 or not any(k.startswith("create:") and not k.endswith(":Ok") for k in fr) \
+                or not any(k.startswith("open:") and not k.endswith(":Ok") for k in fr):
+            raise vp.ToolError(f"vacuous fault injection for {pat}: {tot['injected']} faults, results {fr}")
+        summs.append(tot)
+        for run in vp.split_runs(recs):
+            groups.setdefault((pat, "all"), []).append(run)
+    with cf.ThreadPoolExecutor(max_workers=4) as ex:
+        for res in ex.map(lambda kv: validate_runs(ctx, f"fault-{kv[0][0]}-{kv[0][1].replace('@', '_')}", kv[1], describe_fault),
+                          sorted(groups.items())):
+            out.extend(res)
+    out.append(("calls", ("fault", [{"pat": s_["pat"], "calls": s_["calls"], "results": s_["results"]} for s_ in summs])))
+    out.append(("fault", summs))
+    shown = False
+    for (pat, sc), runs in sorted(groups.items()):
+        for run in runs:
+            if not shown and any(e.get("k") == "fault" for e in run) and pat == "ps":
+                out.append(("sample", {"mode": "fault", "pattern": pat, "history": fault_history(run, 30)}))
+                shown = True
+    return out
+
+
+# ---- crashed creator --------------------------------------------------------------------------------------
+
+MIN_TICK_MS = 1          # the shortest sleep of one iteration of a bounded wait in the code (AdaptiveWait FixedTicks(1 ms) in
+                         # cal dynamic_storage; the builders use config::IO_TICK_TIME = 25 ms)
+OPENER_TIMEOUT_MS = 100
+HANG_BOUND_S = max(20.0, 30 * OPENER_TIMEOUT_MS / 1000.0)
+HANG_HARD_LIMIT_S = 400.0
+
+
+def loop_sample(syslog):
+    """(loop signature, highest record index) if the tail of the process' own syscall log is a retry loop over a
+    few objects, else None."""
+    try:
+        with open(syslog, "rb") as f:
+            f.seek(0, os.SEEK_END)
+            size = f.tell()
+            f.seek(max(0, size - 120000))
+            tail = f.read().decode(errors="replace").splitlines()[1:]
+    except OSError:
+        return None
+    recs = []
+    for line in tail:
+        try:
+            recs.append(json.loads(line))
+        except ValueError:
+            pass
+    recs = [r for r in recs if r.get("k") == "sys"][-300:]
+    if len(recs) < 200:
+        return None
+    sig = frozenset((r["call"], os.path.basename(r["path"])) for r in recs)
+    if len(sig) > 24:
+        return None
+    return sig, max(r["i"] for r in recs)
+
+
+def watch_call(proc, syslog):
+    """Waits for the process. A HANG is declared only on proof: the process is still running after HANG_BOUND_S
+    (>= 30 x the creation timeout, >= 20 s) AND samples of its own syscall log taken >= 2 s apart show the SAME
+    retry loop still growing AND the loop made more iterations between the samples than a wait bounded by the
+    creation timeout can make in total (it sleeps IO_TICK_MS per iteration) - machine load cannot produce that.
+    Returns None (finished) or the description of the loop."""
+    t0, first = time.time(), None
+    while True:
+        if proc.poll() is not None:
+            return None
+        el = time.time() - t0
+        time.sleep(0.05 if el < 3 else 0.5)
+        if el >= HANG_BOUND_S:
+            sp = loop_sample(syslog)
+            if sp is None or (first and first[0] != sp[0]):
+                first = None
+            if sp is not None:
+                if first is None:
+                    first = (sp[0], sp[1], el)
+                elif el - first[2] >= 2.0 and sp[1] - first[1] >= 10 * len(sp[0]) * (OPENER_TIMEOUT_MS // MIN_TICK_MS + 2):
+                    objs = sorted({o for _, o in sp[0]})
+                    return (f"still running after {el:.0f}s (creation timeout {OPENER_TIMEOUT_MS} ms); its own syscall log shows "
+                            f"the same retry loop over {objs[:4]} growing by {sp[1] - first[1]} calls in {el - first[2]:.1f}s")
+        if el > HANG_HARD_LIMIT_S:
+            raise vp.ToolError(f"an opener process neither finished nor could be proven to hang within {HANG_HARD_LIMIT_S}s")
+
+
+def map_uids(events):
+    ids = []
+    for e in events:
+        if "uid" in e:
+            u = e.pop("uid")
+            if not u:
+                e["id"] = 0
+            else:
+                if u not in ids:
+                    ids.append(u)
+                e["id"] = ids.index(u) + 1
+    return events
+
+
+def crash_scenario(ctx, pat, op, n):
+    """Victim (node 0) killed before its n-th state-changing libc call (n = 0: not killed); then the opener process.
+    Returns the composed run (list of records) and whether a hang was proven."""
+    root = ctx.path("dom", "x")[:-2]
+    name = f"k{pat}{op[0]}{n}"
+    droot = os.path.join(root, name + TAG)
+    prefix = f"c6{TAG}{name}_"
+    roots = [droot, "/dev/shm/" + prefix]
+    shared = ctx.path("crash", f"{name}.shared")
+    vev, oev = ctx.path("crash", f"{name}.victim.ndjson"), ctx.path("crash", f"{name}.opener.ndjson")
+    olog = ctx.path("crash", f"{name}.opener.syslog")
+    vlog = ctx.path("crash", f"{name}.victim.syslog")
+    exe = os.path.join(vp.TARGET_BIN, "drv-service")
+    common = ["--pat", pat, "--root", droot, "--prefix", prefix, "--shared", shared, "--tag", TAG]
+    kw = {"IOX2_VERIF_KILL_AT": n, "IOX2_VERIF_SYSLOG": vlog} if n else {}
+    r = subprocess.run([exe, "victim", "--events", vev, "--op", op, "--n", str(n)] + common, stdout=subprocess.PIPE,
+                       stderr=subprocess.PIPE, text=True, timeout=600, env=shim_env(ctx, roots, ctx.seed, **kw))
+    if r.returncode == 2:
+        raise vp.ToolError(f"victim reported a harness problem: {r.stderr[-1500:]}")
+    killed = r.returncode == -9
+    if n and not killed and r.returncode != 0:
+        pass            # died on its own: shows as a call without return below
+    events = vp.read_ndjson(vev) if os.path.exists(vev) else []
+    if not events or events[0].get("k") != "reset":
+        raise vp.ToolError(f"victim wrote no history ({pat} n={n}, exit {r.returncode}): {r.stderr[-800:]}")
+    victim_info = [json.loads(l) for l in r.stdout.splitlines() if l.startswith("{")]
+    if r.returncode != 0:
+        kill = {}
+        if os.path.exists(vlog):
+            for line in open(vlog, errors="replace"):
+                if line.startswith('{"k":"kill"'):
+                    kill = json.loads(line)
+        events.append({"k": "crash", "t": 0, "nd": 0, "n": n, "call": kill.get("call", ""),
+                       "obj": os.path.basename(kill.get("path", "")), "exit": r.returncode, "g": 0})
+    if os.path.exists(vlog):
+        os.remove(vlog)
+    dead = r.returncode != 0
+    oerr = ctx.path("crash", f"{name}.opener.stderr")
+    with open(oerr, "w") as ef:
+        p = subprocess.Popen([exe, "opener", "--events", oev, "--timeout", str(OPENER_TIMEOUT_MS), "--crashed",
+                              "1" if dead else "0"] + common, stdout=subprocess.DEVNULL, stderr=ef,
+                             env=shim_env(ctx, roots, ctx.seed, IOX2_VERIF_SYSLOG=olog, IOX2_VERIF_SYSLOG_MAX=1 << 20))
+        hang = watch_call(p, olog)
+        if hang:
+            p.kill()
+        p.wait()
+    se = open(oerr, errors="replace").read()
+    oevents = vp.read_ndjson(oev) if os.path.exists(oev) else []
+    if p.returncode == 2:
+        raise vp.ToolError(f"opener reported a harness problem: {se[-1500:]}")
+    events += oevents
+    pending = next((e for e in reversed(oevents) if e.get("k") in ("call", "ret")), None)
+    if pending is not None and pending["k"] == "call":
+        # the call never returned: proven hang, or the process died inside it
+        events.append({"k": "ret", "t": pending["t"], "a": pending["a"], "r": "Hang" if hang else "Abort", "uid": "", "s": {},
+                       "v": 0, "h": pending["h"], "f": 0, "g": 0, "why": hang or f"exit {p.returncode}"})
+    elif not hang and p.returncode != 0:
+        events.append({"k": "note", "what": f"opener-exit:{p.returncode}", "nd": 0, "g": 0})
+    if not any(e.get("k") == "end" for e in oevents):
+        events.append({"k": "end", "exist": 0, "listed": 0, "files": 0, "shm": 0, "panics": 0 if hang or p.returncode == 0 else 1,
+                       "tg": [], "dirs": 0, "crashed": 1, "g": 0})
+    for i, e in enumerate(events):
+        if e.get("k") != "reset":
+            e["g"] = i
+    map_uids(events)
+    shutil.rmtree(droot, ignore_errors=True)
+    for fn in os.listdir("/dev/shm"):
+        if fn.startswith(prefix):
+            try:
+                os.remove(os.path.join("/dev/shm", fn))
+            except OSError:
+                pass
+    if os.path.exists(olog):
+        os.remove(olog)
+    return events, hang, victim_info
+
+
+def describe_crash(run, rel, v):
+    h = run[0]
+    first = v.record if isinstance(v.record, dict) else {}
+    cr = next((e for e in run if e.get("k") == "crash"), {})
+    where = f"{cr.get('call', 'none')}@{obj_kind(cr.get('obj', ''))}" if cr else "no-crash"
+    if first.get("r") == "Hang":
+        what = (f"{h.get('pat')}/crash: the creator was killed before its {cr.get('n')}-th state-changing libc call "
+                f"({cr.get('call')} on the {obj_kind(cr.get('obj', ''))} object); {first.get('a')}() of node {first.get('t')} in another "
+                f"process does not terminate: {first.get('why')}")
+        man = f"{first.get('a')}->Hang"
+    else:
+        man = manifest_of(first) if v.invariant is None else f"inv:{v.invariant}"
+        what = (f"{h.get('pat')}/crash: creator killed before its {cr.get('n')}-th state-changing libc call ({where}): the history of the "
+                f"surviving process is not explainable at event #{rel} ({man})")
+    return vp.Violation(what, replay={"kind": "trace", "mode": "crash", "pat": h.get("pat"), "first_unexplained": v.record,
+                                      "position_in_run": rel, "invariant": v.invariant, "history_before": fault_history(run),
+                                      "run": run, "reset": h},
+                        signature=f"crash:{h.get('op')}:{where}:{man}")
+
+
+def part_crash(ctx):
+    """A real creator is SIGKILLed before its N-th state-changing libc call, for every N of create() (quick: all N
+    for publish-subscribe, a seeded sample for the others); then another process opens / open_or_creates with a
+    small creation timeout, without and with the dead-node cleanup.  Every call must RETURN."""
+    import random
+    rnd = random.Random(ctx.seed * 7919 + 17)
+    jobs, meta = [], {}
+    for pat in PATS:
+        ops = ["create"] if ctx.quick or pat == "bb" else ["create", "ooc"]
+        for op in ops:
+            dry, _, info = crash_scenario(ctx, pat, op, 0)
+            vi = next((x for x in info if x.get("k") == "victim"), None)
+            if vi is None or vi["r"] != "Ok":
+                raise vp.ToolError(f"dry run of the victim failed ({pat}/{op}): {info}")
+            ns = list(range(vi["n0"] + 1, vi["n1"] + 2))
+            meta[(pat, op)] = {"n0": vi["n0"], "n1": vi["n1"], "dry": dry}
+            if ctx.quick and pat in ("ev", "rr"):
+                ns = sorted(rnd.sample(ns, min(4, len(ns))))
+            jobs += [(pat, op, n) for n in ns]
+    with cf.ThreadPoolExecutor(max_workers=4) as ex:
+        done = list(ex.map(lambda j: (j, crash_scenario(ctx, *j)), jobs))
+    runs, hangs, calls, results = [m["dry"] for m in meta.values()], 0, 0, {}
+    killed = 0
+    for (pat, op, n), (events, hang, _) in done:
+        runs.append(events)
+        hangs += 1 if hang else 0
+        killed += 1 if any(e.get("k") == "crash" for e in events) else 0
+    for run in runs:
+        pat = run[0]["pat"]
+        for e in run:
+            if e.get("k") == "ret":
+                calls += 1
+                key = f"{pat}/crash/{e['a']}:{e['r']}"
+                results[key] = results.get(key, 0) + 1
+    if killed < len(jobs) * 0.8:
+        raise vp.ToolError(f"vacuous crash injection: only {killed} of {len(jobs)} victims were killed")
+    if not any(k.endswith("open:HangsInCreation") for k in results) and hangs == 0:
+        raise vp.ToolError(f"vacuous crash histories: no opener ever met a half-created service ({results})")
+    groups = {}
+    for run in runs:
+        groups.setdefault(run[0]["pat"], []).append(run)
+    out = []
+    with cf.ThreadPoolExecutor(max_workers=4) as ex:
+        for res in ex.map(lambda kv: validate_runs(ctx, f"crash-{kv[0]}", kv[1], describe_crash), sorted(groups.items())):
+            out.extend(res)
+    out.append(("crash", {"scenarios": len(jobs), "killed": killed, "proven_hangs": hangs, "calls": calls, "results": results,
+                          "ranges": {f"{p}/{o}": [m["n0"], m["n1"]] for (p, o), m in meta.items()}}))
+    smp = next((r for r in runs if r[0]["pat"] == "ps" and any(e.get("k") == "crash" for e in r)
+                and any(e.get("r") == "HangsInCreation" for e in r)), None)
+    if smp:
+        out.append(("sample", {"mode": "crash", "pattern": "ps", "history": fault_history(smp, 30)}))
+    return out
+
+
+
 def selftest(ctx):
     """The binding is real: corrupting one recorded field makes the trace unexplainable."""
     src = ctx.path("traces", "seq-ps.ndjson")
@@ -655,10 +1165,13 @@ def run(ctx):
     dflts = {p: drv(["defaults", "--pat", p, "--root", os.path.join(root, "dflt")], ctx.seed) for p in PATS}
 
     jobs = []
-    with cf.ThreadPoolExecutor(max_workers=5 if quick else 6) as ex:
+    shim_so(ctx)
+    with cf.ThreadPoolExecutor(max_workers=7 if quick else 8) as ex:
         jobs.append(ex.submit(part_traces, ctx))
         jobs.append(ex.submit(guarded(part_matrix, "matrix"), ctx, dflts))
         jobs.append(ex.submit(part_abs_model, ctx))
+        jobs.append(ex.submit(guarded(part_fault, "fault"), ctx))
+        jobs.append(ex.submit(guarded(part_crash, "crash"), ctx))
         if quick:
             jobs.append(ex.submit(part_lifecycle, ctx, "LC_2x2", 2, 2, 1, False, True, False))
             jobs.append(ex.submit(part_lifecycle, ctx, "LC_2x2_res", 2, 2, 1, True, False, True))
@@ -704,6 +1217,15 @@ def run(ctx):
             ctx.coverage.setdefault("extracted_step_order", {})[pat] = {"steps": steps, "parameters": params}
         elif kind == "schedules":
             ctx.coverage["scheduler_executions"] = payload
+        elif kind == "fault":
+            ctx.coverage["fault_injection"] = [
+                {"pat": f["pat"], "runs": f["runs"], "faults_injected": f["injected"], "results_of_faulted_calls": f["fault_results"],
+                 "libc_calls_per_operation": {p_["scenario"]: p_["calls"] for p_ in f["positions"]}} for f in payload]
+        elif kind == "crash":
+            ctx.coverage["crashed_creator"] = payload
+            calls += payload["calls"]
+            for k, v in payload["results"].items():
+                per_result[k] = per_result.get(k, 0) + v
         elif kind == "mustfail":
             name, res = payload
             vp.record_tlc(ctx, f"must-fail {name}", res, count=False)
